@@ -416,12 +416,115 @@ def _process_template(args):
     return res
 
 
+def _process_entry(args):
+    """Worker: the public entry point `delta::lexer::lex` (Tokens::empty, buffer, set_tokens_len and the lexer)
+    on one template, from the MIR of the crate built with the small-buffer hook.  All obligations must be unsat:
+    panics/asserts, Vec::set_len within capacity and over written slots only, loop and model bounds."""
+    prop, tname, template, min_len, known = args
+    res = {'name': 'entry:' + tname, 'violations': [], 'known_hits': [], 'validated': 0, 'error': None, 'queries': [],
+           'stats': {'blocks': 0, 'loop_iterations': 0, 'obligations': 0}, 'models_used': {}, 'functions': [],
+           'solver_s': 0.0, 'exec_s': 0.0, 'dump_s': 0.0}
+    try:
+        path, _ = mir_dump('verif_small_buffers')
+        dump = MirDump(path)
+        defs = RustDefs(os.path.join(REPO, 'src'))
+        n = len(template)
+        ex = Executor(dump, defs, loop_bound=n + 3)
+        ex.memo_pure = False          # Tokens::empty allocates: calls are not pure in the heap model
+        src = [z3.BitVec('x%d' % i, 8) if b is SYM else bv(b, 8) for i, b in enumerate(template)]
+        L = z3.BitVec('L', 64)
+        pre = zand(z3.UGE(L, bv(min_len, 64)), z3.ULE(L, bv(n, 64)))
+        ex.assume(pre)
+        ex.var_bounds['L'] = (min_len, n)
+        t = time.time()
+        try:
+            outs = ex.call_function_multi(dump.get('delta::lexer::lex'),
+                                          [SliceRef(src, bv(0, 64), L), SliceRef([bv(97, 8)], bv(0, 64), bv(1, 64))],
+                                          z3.BoolVal(True), State())
+        except (Unsupported, KeyError) as e:
+            raise Inconclusive('cannot encode delta::lexer::lex: %s' % e)
+        g = zor(*[o[0] for o in outs])
+        posts = []
+        # post-condition on the returned Tokens: the stream ends with two EndOfSource tokens, or it is the
+        # one-error stream of Tokens::empty_with_one_error (E101-E103)
+        sdef = defs.find_struct('delta::lexer::tokens::Tokens')
+        fnames = [f for f, _ in sdef.fields]
+        bt = defs.find_enum('delta::lexer::BaseToken')
+        d_eos, d_err = bt.variant_by_name('EndOfSource')[1], bt.variant_by_name('Error')[1]
+        for g_o, toks, st in outs:
+            tv = toks.fields[fnames.index('tokens')]
+            ev = toks.fields[fnames.index('errors')]
+            slots = st.mem[tv.f['store']].fields
+            nt = tv.f['len']
+            filler = [x for x in slots if x is not None]
+            if not filler:
+                posts.append(g_o)
+                continue
+            kinds = [(x if x is not None else filler[0]).discr for x in slots]
+
+            def at(i):
+                r = bv(-1, 64)
+                for k_, kd in enumerate(kinds):
+                    r = z3.If(i == bv(k_, 64), kd, r)
+                return r
+            last = at(nt - bv(1, 64))
+            prev = at(nt - bv(2, 64))
+            ok_stream = zand(z3.UGE(nt, bv(2, 64)), last == bv(d_eos, 64), prev == bv(d_eos, 64))
+            ok_single = zand(nt == bv(1, 64), kinds[0] == bv(d_err, 64), ev.f['len'] == bv(1, 64))
+            posts.append(zand(g_o, znot(zor(ok_stream, ok_single))))
+        post = zor(*posts) if posts else None
+        res['exec_s'] = time.time() - t
+        res['stats'] = {'blocks': int(ex.stats['blocks']), 'loop_iterations': int(ex.stats['loop_iterations']),
+                        'obligations': len(ex.obligations)}
+        res['models_used'] = dict(ex.used_models)
+        res['functions'] = sorted(ex.inlined)
+        by_kind = {}
+        for kind, og, msg in ex.obligations:
+            by_kind.setdefault(kind, []).append((og, msg))
+        by_kind.setdefault('return', []).append((znot(g), 'lex() does not return'))
+        if post is not None:
+            by_kind.setdefault('unterminated', []).append((post, 'token stream does not end with two EndOfSource tokens '
+                                                                 'and is not the one-error stream'))
+        for kind, lst in sorted(by_kind.items()):
+            s = z3.Solver()
+            s.set('timeout', 600000)
+            s.add(pre)
+            s.add(zor(*[og for og, _ in lst]))
+            t = time.time()
+            r = s.check()
+            dt = time.time() - t
+            res['solver_s'] += dt
+            q = {'template': 'entry:' + tname, 'name': 'entry-no-%s' % kind, 'result': str(r), 'seconds': round(dt, 2)}
+            res['queries'].append(q)
+            if r == z3.unknown:
+                raise Inconclusive('z3 gave up on entry-no-%s' % kind)
+            if r == z3.sat:
+                m = s.model()
+                ln = m.eval(L, model_completion=True).as_long()
+                data = bytes(m.eval(x, model_completion=True).as_long() for x in src[:ln])
+                msgs = [msg for og, msg in lst if z3.is_true(m.eval(og, model_completion=True))][:2]
+                q['counterexample'] = data.hex()
+                nat = native_lexdiff([data])[0]
+                what = 'entry-no-%s on input %r (template %s): %s; native: %s' % (kind, data, tname, '; '.join(msgs), nat)
+                key = 'entry-no-%s:%s' % (kind, data.hex())
+                if key in known:
+                    res['known_hits'].append(what)
+                    continue
+                if nat == 'same' and kind not in ('uninit', 'unterminated'):
+                    raise Inconclusive('counterexample %r for entry-no-%s does not reproduce natively (%s)' % (data, kind, msgs))
+                res['violations'].append({'what': what, 'query': 'entry-no-%s' % kind, 'template': tname, 'input_hex': data.hex(),
+                                          'input_repr': repr(data), 'native': nat, 'obligation': msgs})
+    except Inconclusive as e:
+        res['error'] = str(e)
+    return res
+
+
 def _wanted(want_names, qn):
     exact, prefixes = want_names
     return qn in exact or any(qn.startswith(p) for p in prefixes)
 
 
-def run_suite(prop, tier, templates, want_names, describe, outside, n_samples, extra=None):
+def run_suite(prop, tier, templates, want_names, describe, outside, n_samples, extra=None, entry_templates=()):
     """templates: [(name, template, min_len)]; want_names = (set of exact query names, tuple of prefixes)
     selects the queries this property claims.  Templates are processed in parallel worker processes.
     Returns the exit code."""
@@ -434,10 +537,17 @@ def run_suite(prop, tier, templates, want_names, describe, outside, n_samples, e
     known = set(known_keys(prop))
     jobs = [(prop, name, template, min_len, want_names, n_samples, known, seed() * 1009 + 7 + i)
             for i, (name, template, min_len) in enumerate(templates)]
-    workers = min(len(jobs), max(1, (os.cpu_count() or 4) - 2))
+    ejobs = [(prop, name, template, min_len, known) for name, template, min_len in entry_templates]
+    if ejobs:
+        mir_dump('verif_small_buffers')
+    workers = min(len(jobs) + len(ejobs), max(1, (os.cpu_count() or 4) - 2))
     ctx = multiprocessing.get_context('fork')
     with ctx.Pool(workers) as pool:
+        async_e = pool.map_async(_process_entry, ejobs, chunksize=1) if ejobs else None
         results = pool.map(_process_template, jobs, chunksize=1)
+        eresults = async_e.get() if async_e else []
+    templates = list(templates) + [('entry:' + n_, t_, m_) for n_, t_, m_ in entry_templates]
+    results = results + eresults
     errors = [r for r in results if r['error']]
     if errors:
         raise Inconclusive('; '.join('%s: %s' % (r['name'], r['error']) for r in errors))
